@@ -806,6 +806,18 @@ def drain_placement(F, S):
             out.append(ok("R-ACCT", inst, fn.loc(nd["id"]), fn.qn, req, "%s = bufferSize - %s" % (fmt_term(room), L.txt(D))))
         else:
             out.append(bad("R-ACCT", inst, fn.loc(nd["id"]), fn.qn, req, "room %s is %s, delivered %s" % (fmt_term(room), L.txt(rm), L.txt(D))))
+    # whatever is buffered is handed out by every call: a copy is attempted on every returning path, not only while the
+    # input lasts (a drain that reaches the end of the input with data still buffered is followed by calls that must still
+    # deliver that data)
+    from ..through import on_every_returning_path
+    inst = "%s::GetData#always-drains" % HL
+    req = "CopyAvailableData is called on every returning path of GetData, whatever the end-of-stream flag says"
+    ids = [nd["id"] for (nd, _d, _r, _o, _m, _D) in sites]
+    if on_every_returning_path(fn, ids):
+        out.append(ok("R-MUSTCALL", inst, fn.loc(ids[0]), fn.qn, req, "a copy is on every path"))
+    else:
+        out.append(bad("R-MUSTCALL", inst, fn.loc(fn.body), fn.qn, req,
+                       "a path returns without a copy (every copy sits under the end-of-stream / room test): data buffered when the input ended is never delivered by later calls"))
     for (nd, v, D) in st["ret"]:
         inst = "%s::GetData#returns-delivered" % HL
         req = "the count returned is the number of bytes delivered"
@@ -818,6 +830,10 @@ def drain_placement(F, S):
 
 def check(F, run, tier):
     S = Summaries(F)
+    from ..rules_archive import handlers_rethrow
+    _oh, _nh = handlers_rethrow(F, S, ["/src/"])
+    run.add(_oh)
+    run.floor("exception-handlers", _nh, 7)
     from ..rules_archive import noexcept_obligations
     noexcept_obligations(F, S, run)
     run.declined = DECLINED
